@@ -6,7 +6,10 @@
 (* blocks (KVExec.tla's Apply) and a memo "map -> state root": whenever    *)
 (* any instance, at any time, reports a root for a map that was seen       *)
 (* before, it must be the same root - whatever was finalized, injected,    *)
-(* re-initialised, re-executed or reopened in between.                     *)
+(* re-initialised, re-executed or reopened in between.  An execution may   *)
+(* meet one transient read failure of its datastore (fault = TRUE): it may *)
+(* then fail - the driver executes the block again - but if it succeeds    *)
+(* its root is held to the same standard.                                  *)
 (***************************************************************************)
 EXTENDS TraceLib
 
@@ -35,7 +38,7 @@ TCall ==
        /\ viol' = viol \o Failed(<<
              <<"C15.RootDependsOnlyOnTxs", (e.op = "exec" /\ e.ok /\ after \in DOMAIN memo) => e.root = memo[after],
                  "two executions of the same transaction history reported different state roots">>,
-             <<"C15.MalformedChangesNothing", e.op = "exec" => (e.ok <=> ~Bad(e.txs)),
+             <<"C15.MalformedChangesNothing", e.op = "exec" => (IF e.fault THEN (e.ok => ~Bad(e.txs)) ELSE (e.ok <=> ~Bad(e.txs))),
                  "a block with a malformed transaction was accepted, or a well-formed block was rejected">>,
              <<"C15.InitIdempotent", (e.op = "init" /\ e.ok /\ gen[i] # "") => ("set:" \o e.root) = gen[i],
                  "repeated chain initialization returned a different genesis root">>,
